@@ -116,17 +116,14 @@ class ClassInfo:
 
 
 class Module:
-    def __init__(self, name: str, path: str, relpath: str):
+    def __init__(self, name: str, path: str, relpath: str, data: bytes, tree: ast.Module, expanded_calls: int = 0):
         self.name = name
         self.path = path
         self.relpath = relpath
-        with open(path, "rb") as fobj:
-            data = fobj.read()
         self.sha256 = hashlib.sha256(data).hexdigest()
         self.src = data.decode("utf-8")
-        self.tree = ast.parse(self.src, filename=path)
-        from .normalise import normalise_module
-        self.tree, self.expanded_calls = normalise_module(self.tree, name)
+        self.tree = tree
+        self.expanded_calls = expanded_calls
         self.imports: T.Dict[str, T.Tuple[str, ...]] = {}
         self.functions: T.Dict[str, FunctionInfo] = {}
         self.classes: T.Dict[str, ClassInfo] = {}
@@ -206,14 +203,24 @@ class Program:
         if not os.path.isdir(self.src_root):
             raise AnalysisError(f"source root not found: {self.src_root}")
         self.modules: T.Dict[str, Module] = {}
+        raw: T.Dict[str, T.Tuple[str, bytes]] = {}
+        trees: T.Dict[str, ast.Module] = {}
         for fn in sorted(os.listdir(self.src_root)):
             if fn.endswith(".py"):
                 name = fn[:-3]
                 path = os.path.join(self.src_root, fn)
+                with open(path, "rb") as fobj:
+                    data = fobj.read()
                 try:
-                    self.modules[name] = Module(name, path, f"src/{PKG}/{fn}")
+                    trees[name] = ast.parse(data.decode("utf-8"), filename=path)
                 except SyntaxError as ex:
                     raise AnalysisError(f"cannot parse {path}: {ex}")
+                raw[name] = (path, data)
+        # E0b: undo extract-function refactorings relative to the pinned tree's function list (see sa/normalise.py)
+        from .normalise import normalise_program
+        expanded = normalise_program(trees)
+        for name, (path, data) in raw.items():
+            self.modules[name] = Module(name, path, f"src/{PKG}/{os.path.basename(path)}", data, trees[name], expanded.get(name, 0))
         self._fold_cache: T.Dict[T.Tuple[str, str], T.Any] = {}
         self.resolved_calls = 0
         self.unresolved_calls = 0
